@@ -384,6 +384,21 @@ def equal(kind, a, b, home):
 
 
 # ----------------------------------------------------------------------------------------
+# value domain restrictions that are not expressed by the strategies' construction alone
+
+MAX_EXACT_SECONDS = 2 ** 53     # every int up to here is exactly a float
+
+
+def in_domain(kind, spec):
+    """Is the spec a value real callers give to a variable of this kind?  (Used for saved cases; the strategies
+    below never leave the domain.)"""
+    if kind == "histsize" and spec[1] == "s":
+        n = dec_num(spec[0])
+        return not isinstance(n, int) or abs(n) <= MAX_EXACT_SECONDS
+    return True
+
+
+# ----------------------------------------------------------------------------------------
 # strategies (Hypothesis), every one yields specs
 
 TEXT_ALPHABET = "abcXYZ019 _-./:=~$'\"\\\t\n%{}[]()*?!#&|;<>,@^+éλ雪"
@@ -465,9 +480,13 @@ def strategy(kind, st, scratch="/var/tmp", shapes=True):
         return st.lists(st.sampled_from(HIST_WORDS), max_size=4, unique=True).map(sorted)
     if kind == "histsize":
         ints = st.one_of(st.integers(-5, 10 ** 6), st.integers(0, 2 ** 64))
+        # seconds are a float quantity (every seconds unit is registered with a float converter, the only consumer
+        # compares them with time.time() differences); an int is accepted as shorthand for the float it equals, so
+        # second counts given as int stay within +-MAX_EXACT_SECONDS (beyond it no float equals them: 285 My)
+        secs = st.one_of(st.integers(-5, 10 ** 6), st.integers(0, MAX_EXACT_SECONDS),
+                         st.floats(allow_nan=False, allow_infinity=False))
         return st.one_of(st.tuples(ints, st.sampled_from(["commands", "files", "b"])),
-                         st.tuples(st.one_of(ints, st.floats(allow_nan=False, allow_infinity=False)), st.just("s"))
-                         ).map(lambda t: [enc_num(t[0]), t[1]])
+                         st.tuples(secs, st.just("s"))).map(lambda t: [enc_num(t[0]), t[1]])
     if kind == "dyncwd":
         return st.tuples(st.floats(allow_nan=False), st.sampled_from(["c", "%"])).map(lambda t: [enc_num(t[0]), t[1]])
     if kind == "logfile":
